@@ -245,6 +245,20 @@ def _ss(d):
     return sorted((k, sorted(v)) for k, v in d.items())
 
 
+import re as _re
+_UUID = _re.compile(r'[0-9a-f]{8}-[0-9a-f]{4}-[0-9a-f]{4}-[0-9a-f]{4}-[0-9a-f]{12}')
+
+
+def _canon(x):
+    if isinstance(x, dict):
+        return sorted((repr(k), _canon(v)) for k, v in x.items())
+    if isinstance(x, (set, frozenset)):
+        return sorted(_canon(v) for v in x)
+    if isinstance(x, (list, tuple)):
+        return [_canon(v) for v in x]
+    return x if isinstance(x, (int, str, bool, float)) or x is None else repr(x)
+
+
 def _atom_labels(m):
     out = []
     for n, a in m._atoms.items():
@@ -339,6 +353,22 @@ OBSERVERS = [
     ('xy', lambda m: [(n, a.x, a.y, tuple(a.xy)) for n, a in m.atoms()]),
     ('meta', lambda m: (m.name, sorted(m.meta.items()))),     # reading .meta creates the lazy dict
     ('environment', lambda m: [(n, tuple(m.environment(n, include_bond=False, include_atom=False))) for n in m]),
+    # appended later (indices of the entries above are recorded in replay files): the rarely read derived values
+    ('rings_linker_tetrahedrons', lambda m: _canon(m.rings_linker_tetrahedrons)),
+    ('ring_cumulenes_terminals', lambda m: _canon(m.ring_cumulenes_terminals)),
+    ('rings_linker_cumulenes_terminals', lambda m: _canon(m.rings_linker_cumulenes_terminals)),
+    ('ring_attached_cumulenes', lambda m: _canon(m.ring_attached_cumulenes)),
+    ('stereo_tables', lambda m: [_canon(getattr(m, k)) for k in ('_stereo_cis_trans_centers', '_stereo_cis_trans_terminals',
+                                                                 '_stereo_cis_trans_counterpart', '_stereo_allenes_terminals',
+                                                                 '_stereo_allenes_centers', '_cis_trans_count')]),
+    ('wedge_map', lambda m: sorted(m._wedge_map)),
+    ('contains', lambda m: [s in m for s in ('C', 'N', 'O', 'H', 'Cl', 'Na', 'Fe')]),
+    ('fast_mapping', lambda m: _canon(m.get_fast_mapping(m.copy()))),
+    ('fingerprints', lambda m: [sorted(m.linear_bit_set(1, 4)), sorted(m.morgan_bit_set(1, 3)),
+                                m.linear_fingerprint(1, 4).tolist(), m.morgan_fingerprint(1, 3).tolist()]),
+    ('hydrogens_total', lambda m: [(n, a.total_hydrogens, round(a.atomic_mass, 6), hash(a)) for n, a in m.atoms()]),
+    ('depict', lambda m: _UUID.sub('ID', m.depict(clean2d=False))),      # element ids are uuid4 values: the one random part, masked
+    ('hash_smiles', lambda m: [_canon(m.linear_hash_smiles(1, 3)), _canon(m.morgan_hash_smiles(1, 2))]),
 ]
 OBS_INDEX = {k: i for i, (k, _) in enumerate(OBSERVERS)}
 # pure functions of the graph alone: may be read (and must be right) inside an open transaction, where atom labels are
